@@ -83,11 +83,13 @@ static void run_col(int ntok, char **tok)
 	(void) ntok;
 	r = mpt_color_parse(c, txt);
 	if (r < 0) vh_tok("E|%02x%02x%02x%02x", c->alpha, c->red, c->green, c->blue);
-	else vh_tok("K%d|%02x%02x%02x%02x", r, c->alpha, c->red, c->green, c->blue);
-	r = mpt_color_parse(0, txt);
-	vh_tok(r < 0 ? "qE" : "qK");
-	/* print the colour and parse the printed text again */
+	else vh_tok("K|%02x%02x%02x%02x", c->alpha, c->red, c->green, c->blue);
 	{
+		int q = mpt_color_parse(0, txt);
+		vh_tok(q < 0 ? "qE" : "qK");
+	}
+	/* print the accepted colour and parse the printed text again */
+	if (r >= 0) {
 		std::ostringstream os;
 		color *d = new color(0x22, 0x33, 0x44, 0x11);
 		os << *c;
